@@ -21,6 +21,12 @@ inductive FillRes where
   | ok (k : Kin)
   | kinematicsError
   | assertionError
+  | zeroDivisionError          -- Python float division by zero
+  | valueError                 -- math.sqrt of a negative number ("math domain error")
+
+inductive PyErr where
+  | zeroDivision
+  | mathDomain
 
 /-- `_complete_xBWQ2` when exactly two of the trio are present (M2 = Mp²) -/
 def completeTrio (M2 : K) (k : Kin) : Option Kin :=
@@ -30,22 +36,44 @@ def completeTrio (M2 : K) (k : Kin) : Option Kin :=
   | some x, some w, none => some { k with Q2 := some (x * (w ^ (2:Nat) - M2) / (1 - x)) }
   | _, _, _ => none
 
+/-- `d == 0.0` for a float denominator (a NaN is not produced by any input the property quantifies over) -/
+def isZero (d : K) : Bool := if d < 0 then false else if d > 0 then false else true
+
+/-- the exception `_complete_xBWQ2` raises instead of returning, for two given members of the trio -/
+def trioRaises (M2 : K) (k : Kin) : Option PyErr :=
+  match k.xB, k.W, k.Q2 with
+  | none, some w, some q => if isZero (w ^ (2:Nat) + q - M2) then some .zeroDivision else none
+  | some x, none, some q =>
+    if isZero x then some .zeroDivision
+    else if q / x - q + M2 < 0 then some .mathDomain else none
+  | some x, some _, none => if isZero (1 - x) then some .zeroDivision else none
+  | _, _, _ => none
+
 def countTrio (k : Kin) : Nat :=
   (if k.xB.isSome then 1 else 0) + (if k.W.isSome then 1 else 0) + (if k.Q2.isSome then 1 else 0)
 
-/-- `_fill_kinematics(kin)` with `old = {}` -/
-def fill (M2 : K) (k : Kin) : FillRes :=
-  if countTrio k = 3 then .kinematicsError else
-  let k1 := if countTrio k = 2 then (completeTrio M2 k).getD k else k
-  let k2 := match k1.xB with
-    | some x => { k1 with xi := some (x / (2 - x)) }
-    | none => k1
-  -- the duo {t, tm} is tested on the keys present at entry
+/-- `_complete_tmt` part of `_fill_kinematics`: the duo {t, tm} is tested on the keys present at entry (`k`) -/
+def fillDuo (k k2 : Kin) : FillRes :=
   match k.t, k.tm with
   | some _, some _ => .kinematicsError
   | some t, none => if t ≤ 0 then .ok { k2 with tm := some (-t) } else .assertionError
   | none, some tm => if tm ≥ 0 then .ok { k2 with t := some (-tm) } else .assertionError
   | none, none => .ok k2
+
+/-- `_fill_kinematics(kin)` with `old = {}` -/
+def fill (M2 : K) (k : Kin) : FillRes :=
+  if countTrio k = 3 then .kinematicsError else
+  -- exceptions come in the order of the statements: trio, then xi, then the duo
+  match (if countTrio k = 2 then trioRaises M2 k else none) with
+  | some .zeroDivision => .zeroDivisionError
+  | some .mathDomain => .valueError
+  | none =>
+  let k1 := if countTrio k = 2 then (completeTrio M2 k).getD k else k
+  match k1.xB with
+  | some x =>
+    if isZero (2 - x) then .zeroDivisionError else
+    fillDuo k { k1 with xi := some (x / (2 - x)) }
+  | none => fillDuo k k1
 
 /-! ### conventions -/
 
@@ -105,6 +133,19 @@ def fromConv (p : CPt) : CPt :=
 
 /-- `orig_conventions(val)`: the prediction `v` expressed in the point's original conventions -/
 def origConv (p : CPt) (v : K) : K :=
+  let v1 := if p.pb then v * 1000 else v
+  -- a harmonic flips the sign only when the point is not given at an explicit angle (data.py after fix:
+  -- `'phi' not in self and 'FTn' in self`, `'varphi' not in self and 'varFTn' in self`)
+  let v2 := match p.phi, p.FTn with
+    | none, some n => if p.trento && flipsFTn n then -v1 else v1
+    | _, _ => v1
+  match p.varphi, p.varFTn with
+  | none, some n => if p.trento && flipsVar n then -v2 else v2
+  | _, _ => v2
+
+/-- `orig_conventions` before the repair: a harmonic index flipped the sign even when the point carried the angle
+    itself (as every transversely polarised point loaded from a file does: `varFTn = -1` is filled in by default) -/
+def origConvOld (p : CPt) (v : K) : K :=
   let v1 := if p.pb then v * 1000 else v
   let v2 := match p.FTn with
     | some n => if p.trento && flipsFTn n then -v1 else v1
